@@ -10,6 +10,11 @@ FUNCTIONS = [
     "sqllineage.core.holders.ColumnLineageMixin.get_column_lineage",
     SQ + "add_column_lineage",
     SQ + "add_write_column",
+    SQ + "_property_setter",
+    SQ + "add_read",
+    SQ + "add_write",
+    SQ + "add_cte",
+    SQ + "get_table_columns",
     ("sqllineage.core.holders.SubQueryLineageHolder._replace_wildcard", ["modeltypes", "config", "metadata", "holders", "holders_c13"]),
     ("sqllineage.core.holders.SQLLineageHolder._build_digraph", ["modeltypes", "config", "metadata", "holders"]),
 ] + [(M + c + m, MODELS) for c in ("Column.", "Table.", "SubQuery.", "Path.", "Schema.") for m in ("__eq__", "__hash__")]
